@@ -25,8 +25,10 @@ from ..impl import mx, close_all, quiet
 CFG = {
     "weights": {"new_space": 1.5, "del_space": 0.4, "new_cells": 2.5, "set_formula": 1.5, "set_cached": 0.4,
                 "del_cells": 1.2, "rename_cells": 0.8, "add_bases": 2.5, "remove_bases": 1.0, "set_ref": 2.0,
-                "del_ref": 0.8, "set_mref": 0.4, "set_value": 1.0, "eval": 2.0, "evalall": 0.5, "bad": 5.0},
+                "del_ref": 0.8, "set_mref": 0.4, "set_value": 1.0, "eval": 2.0, "evalall": 0.5, "bad": 5.0,
+                "rename_space": 0.8},
     "clash_wide": True,
+    "rename_bad": 0.5,      # half of the space renames of the random histories offer a name that is no name
 }
 # a second stream of random histories (the draws of the first do not move): the malformed part offers formulas as
 # Python OBJECTS (struct_props.gen_bad_obj / formula_objs) through every API that takes a formula; parametrised
@@ -43,6 +45,7 @@ RULE = ("random histories (12-26 ops) in which about a quarter of the operations
 
 KNOWN_SPACE_FORMULA = "C11-space-formula-discarded-before-validation"
 KNOWN_SOURCELESS = "C11-sourceless-function-formula"
+KNOWN_MREF_NAME = "C11-model-ref-invalid-name"
 
 
 def sourceless_function(obj):
@@ -182,6 +185,12 @@ class H(S.Hooks):
                     out.fail("cells name %r in %s is not a valid identifier" % (cn, p), hist)
         for rn in api.bad_ref_names(live.m):
             out.fail("reference name %r is not a valid identifier" % rn, hist)
+        for rn in api.bad_model_ref_names(live.m):
+            # known finding: `setattr(model, name, v)` does not look at the name (UserSpace.set_attr does).  Recognised
+            # only for a model-level reference that a set_mref of this history created under exactly that name
+            made = any(o[0] == "set_mref" and o[1] == rn for o in ops[:k + 1])
+            out.fail("model-level reference name %r is not a valid identifier" % rn, hist,
+                     key=KNOWN_MREF_NAME if made else None)
 
 
 def _diff(a, b):
@@ -215,6 +224,16 @@ def run(ctx, out):
                              "re-deriving edits; %d contain a refused edit" % (len(fam), refused))
     api.run_struct(ctx, out, stats, H, CFG, S.run_one)
     batch_api.run(ctx, out, stats, H, CFG, S.run_one, S.run_family)
+    fam = S.naming_family()
+    refused = S.run_family(out, stats, fam, H, CFG, "naming_family")
+    out.coverage["evaluations"] += len(fam)
+    out.coverage["rule"] += ("; plus the naming family (struct_props.naming_family): %d programs = (each of %d names that "
+                             "are no names: leading underscore, leading digit, keyword, blank inside, empty, dotted, ...) x "
+                             "(every entry point that gives or changes a name: new_space / rename of top-level, nested, base "
+                             "and parametrised spaces, new_space(formula=), copy(name=), new_cells / rename of cells, cells "
+                             "through the current space, references by attribute / set_ref / model level / new_space(refs=), "
+                             "module, pandas and csv imports), on a model holding inputs, values and ItemSpaces; %d contain "
+                             "a refused edit" % (len(fam), len(S.BAD_NAMES), refused))
     fam = S.formula_object_family()
     S.run_family(out, stats, fam, H, CFG, "formula_object_family")
     out.coverage["evaluations"] += len(fam)
